@@ -56,6 +56,11 @@ class Monitor:
         for k in self.keys:
             for val in self.values:
                 evs.append(["send", list(k), val])
+        if self.cfg.get("acksend"):
+            # the same key sent with the ack flag set: the flag is not part of "(child, value type)", so the later
+            # send supersedes the earlier one whatever the two flags are
+            for val in self.values:
+                evs.append(["send", list(self.keys[0]), val, 1])
         n0, c0 = self.nodes[0], self.children[0]
         if self.cfg.get("twins"):
             # an internal command that may carry any child id (an id response), same node / child / type number as a set key
@@ -116,8 +121,9 @@ class Monitor:
             n, c, t = ev[1]
             key = (n, c, t)
             val = ev[2]
-            line = R.enc(n, c, 1, 0, t, val)
-            out = s.send(Message(n, c, 1, 0, t, val))
+            ack = ev[3] if len(ev) > 3 else 0
+            line = R.enc(n, c, 1, ack, t, val)
+            out = s.send(Message(n, c, 1, ack, t, val))
             self.last_desc = out.describe()
             if out.kind != "return":
                 bad("send-raised", f"send of set {line!r} raised {type(out.exc).__name__}")
@@ -230,6 +236,9 @@ def configs(ctx: core.Ctx) -> list:
         cfgs.append({"version": v, "nodes": [25, 254], "children": [2, 25], "keys": [[25, 2, 2], [254, 25, 2]] if ctx.quick else [[25, 2, 2], [254, 25, 2], [254, 2, 25]], "values": ["a", "b"], "sleep": [True, True]})
     cfgs.append({"version": "2.1", "keys": [[1, 3, 2], [2, 3, 2]], "values": ["a", "b"], "sleep": [True, True], "ackwake": True})
     cfgs.append({"version": "2.2", "keys": [[1, 3, 2]], "values": ["a", "b"], "sleep": [True, True], "ackwake": True})
+    # eleventh wave: the application sends the same key with and without the ack flag
+    cfgs.append({"version": "2.1", "keys": [[1, 3, 2], [2, 3, 2]], "values": ["a", "b"], "sleep": [True, True], "acksend": True})
+    cfgs.append({"version": "2.2", "keys": [[1, 3, 2]], "values": ["a", "b"], "sleep": [True, True], "acksend": True})
     # a set key and an internal command with the same node / child / type number (4 = V_PRESSURE / I_ID_RESPONSE)
     cfgs.append({"version": "2.2", "keys": [[1, 3, 4], [1, 3, 2]], "values": ["a", "b"], "sleep": [True, True], "twins": True})
     # value types the active protocol has no name for (47 under 1.x, 60 everywhere): still a set command
